@@ -30,7 +30,8 @@ ROUTES = {"new": "i64", "try_from_i64": "i64", "try_from_u64": "u64", "try_from_
           "from_plain": "text", "json_client": "json", "json_server": "json", "json_key": "json", "smile": "i64",
           "smile_u64": "u64", "smile_key": "i64", "any_i64": "i64", "any_u64": "u64", "any_i128": "i128",
           "any_key": "i64", "object_field": "json",
-          "json_any": "json", "json_any_key": "json", "json_any_nested": "json", "smile_any": "u64"}
+          "json_any": "json", "json_any_key": "json", "json_any_nested": "json", "smile_any": "u64",
+          "smile_i128": "i128", "smile_u128": "u128", "smile_any_u128": "u128", "smile_list_u128": "u128"}
 
 
 def position(v):
@@ -205,7 +206,7 @@ def run(tier, seed):
                 "bits per route. Non-trivial = |value| > 2^31; distinct by (route, value)." % nsamp,
         "coverage_by_action": {k: v[1] for k, v in r.coverage.items()}, "trace_lines": len(lines),
         "binding_selftest_rejected_corrupted_trace": bool(bound), "exhaustive": True,
-        "bounds": "26 routes x 67 positions exhaustively in TLC; values inside intervals sampled",
+        "bounds": "30 routes x 67 positions exhaustively in TLC; values inside intervals sampled",
     }
     out.assumptions = ["TLC 1.8.0", "python big-integer arithmetic for exact values and their classification"]
     return out.finish()
